@@ -90,7 +90,7 @@ def _opt(e, code, val):
 
 
 def pcapng(packets, endian="<", tsresol=6, tsoffset=None, dsbs_before=(), dsbs_after=(), extra_blocks=(), dsb_at=None, use_pb=False,
-           snaplen=262144, linktype=1, offset_first=False):
+           snaplen=262144, linktype=1, offset_first=False, idle_first=()):
     """packets: list of (ts_in_units_of_the_resolution_as_int, frame_bytes) or ('DSB', text).
     tsresol: int k for 10^-k, or (2, k) for 2^-k.  extra_blocks: list of (position_index, block_type) inserted before packet i.
     Returns the file bytes."""
@@ -108,6 +108,10 @@ def pcapng(packets, endian="<", tsresol=6, tsoffset=None, dsbs_before=(), dsbs_a
     pre_idb = [b for pos, b in extra_blocks if pos == "pre_idb"]
     for bt in pre_idb:
         out.append(_extra_block(e, bt))
+    # idle_first: (linktype, snaplen) of interfaces described before the one that carries the packets (same time options; nothing is captured on them)
+    for lt, sl in idle_first:
+        out.append(_block(e, 1, struct.pack(e + "HHI", lt, 0, sl) + opts))
+    ifid = len(idle_first)
     out.append(_block(e, 1, struct.pack(e + "HHI", linktype, 0, snaplen) + opts))
     for text in dsbs_before:
         out.append(dsb_block(e, text))
@@ -121,9 +125,9 @@ def pcapng(packets, endian="<", tsresol=6, tsoffset=None, dsbs_before=(), dsbs_a
         ts, frame = item
         hi, lo = (ts >> 32) & 0xFFFFFFFF, ts & 0xFFFFFFFF
         if use_pb:
-            out.append(_block(e, 2, struct.pack(e + "HHIIII", 0, 0, hi, lo, len(frame), len(frame)) + _pad4(frame)))
+            out.append(_block(e, 2, struct.pack(e + "HHIIII", ifid, 0, hi, lo, len(frame), len(frame)) + _pad4(frame)))
         else:
-            out.append(_block(e, 6, struct.pack(e + "IIIII", 0, hi, lo, len(frame), len(frame)) + _pad4(frame)))
+            out.append(_block(e, 6, struct.pack(e + "IIIII", ifid, hi, lo, len(frame), len(frame)) + _pad4(frame)))
     for pos, bt in extra_blocks:
         if pos == "end":
             out.append(_extra_block(e, bt))
